@@ -167,7 +167,8 @@ pub trait RollingValidNorm<T: IsNone>: Vec1View<T> {
                         (min, min_idx) = (v, end);
                     }
                     if (n >= min_periods) & (max != min) {
-                        ((v - min).f64() / (max - min).f64()).cast()
+                        // subtract in f64: the range of an integer type can exceed the type
+                        ((v.f64() - min.f64()) / (max.f64() - min.f64())).cast()
                     } else {
                         f64::NAN.cast()
                     }
